@@ -42,6 +42,77 @@ def load_units():
     return json.load(open(os.path.join(VERIF, "units", "index.json")))
 
 
+
+def contracted_functions(units):
+    """(repo path, fn name) of every function whose body is under contract (not a stub) in the given units"""
+    res = set()
+    for u in units:
+        if u.get("engine") != "verus":
+            continue
+        t = open(os.path.join(VERIF, u["template"])).read()
+        for m in re.finditer(r"^//@ extract (\S+) :: (.*)$", t, re.M):
+            if "external_body" in m.group(2):
+                continue
+            mm = re.search(r"\bfn (\w+)", m.group(2))
+            if mm:
+                res.add((m.group(1), mm.group(1)))
+    return res
+
+
+def frame_scan(scan, units):
+    """Syntactic frame condition: every non-test occurrence of `pattern` under `root` must lie inside a function that is
+    under contract in one of the units serving the property (so that its effect is covered by a proved contract).
+    Returns the list of call sites outside the functions under contract."""
+    allowed = contracted_functions(units)
+    outside, inside = [], 0
+    root = os.path.join(extract.REPO, scan["root"])
+    pat = re.compile(scan["pattern"])
+    for dp, _dn, fns in os.walk(root):
+        for fn in fns:
+            if not fn.endswith(".rs"):
+                continue
+            path = os.path.join(dp, fn)
+            rel = os.path.relpath(path, extract.REPO)
+            src = open(path).read()
+            m = extract.mask(src)
+            # test modules are out of scope
+            skip = []
+            for t in re.finditer(r"#\[cfg\(test\)\]\s*(?:pub\s+)?mod\s+\w+\s*\{", m):
+                o = t.end() - 1
+                skip.append((t.start(), extract.match_close(m, o)))
+            fns_r = []
+            for f in re.finditer(r"\bfn\s+(\w+)", m):
+                j = f.end()
+                depth = 0
+                while j < len(m):
+                    ch = m[j]
+                    if ch in "([":
+                        depth += 1
+                    elif ch in ")]":
+                        depth -= 1
+                    elif ch == "{" and depth == 0:
+                        fns_r.append((f.start(), extract.match_close(m, j), f.group(1)))
+                        break
+                    elif ch == ";" and depth == 0:
+                        break
+                    j += 1
+            for h in pat.finditer(m):
+                if any(a <= h.start() <= b for a, b in skip):
+                    continue
+                encl = [x for x in fns_r if x[0] <= h.start() <= x[1]]
+                name = min(encl, key=lambda x: x[1] - x[0])[2] if encl else "?"
+                if name == scan.get("callee_self"):
+                    inside += 1        # the primitive's own definition / recursion
+                    if (rel, name) not in allowed:
+                        outside.append("%s:%d in fn %s" % (rel, src.count("\n", 0, h.start()) + 1, name))
+                    continue
+                if (rel, name) in allowed:
+                    inside += 1
+                else:
+                    outside.append("%s:%d in fn %s" % (rel, src.count("\n", 0, h.start()) + 1, name))
+    return inside, outside
+
+
 def load_known():
     p = os.path.join(VERIF, "known_findings.json")
     if os.path.exists(p):
@@ -457,6 +528,17 @@ def main():
             results.append(f.result())
     undecided, violations, knowns = [], [], []
     open_known = [x for x in known if x.get("status", "open") == "open"]
+    frame_notes = []
+    for scan in load_units().get("frame_scans", []):
+        if prop not in scan["props"]:
+            continue
+        inside, outside = frame_scan(scan, units)
+        frame_notes.append("frame scan `%s`: %d site(s), all inside functions under contract" % (scan["name"], inside) if not outside else
+                           "frame scan `%s`: site(s) outside the functions under contract: %s" % (scan["name"], "; ".join(outside)))
+        for o in outside:
+            undecided.append("frame: %s occurs outside the functions under contract (%s): its effect is not covered by any proved contract" % (scan["name"], o))
+        if inside == 0:
+            undecided.append("frame: %s matches nothing (pattern stale?)" % scan["name"])
     for u, r in zip(units, results):
         for msg in r["undecided"]:
             undecided.append("%s: %s" % (u["name"], msg))
